@@ -22,6 +22,11 @@ def make(sh):
     return Ob("C13:" + sh.sid, body, timeout=40, tags=sh.tags(), text=sh.text())
 
 
+def _outputs(program):
+    from vlib.harness import outputs
+    return outputs(program)
+
+
 def obligations(tier, seed):
     obs = [make(sh) for sh in stmt.corpus(tier, seed) + stmt.invalid_corpus(tier, seed)]
     obs += [make_line(sh) for sh in stmt.line_corpus(tier, seed)]
@@ -64,7 +69,7 @@ def definition_graph_obligations(tier, seed):
                     body_lines = ["HERE NOP"] + ([" " + use] if use and not use.startswith("Z ") else ([use] if use else [])) + ["THERE NOP"]
                     lines = (defs + body_lines) if order == 0 else (body_lines + defs)
                     o = assemble(lines, wall_limit=10)
-                    if o.kind in ("ok", "diag"):
+                    if o.kind == "diag" or (o.kind == "ok" and _outputs(o.program) is None):
                         continue
                     if ctx.known(PID, {"part": "defgraph"}, {"kind": o.kind, "exc": o.exc_name, "site": o.site, "use": use, "graph": gname}):
                         continue
@@ -118,7 +123,7 @@ def random_line_obligations(tier, seed):
             for ln in lines:
                 for progl in ([ln], ["MSG EQU $1000", "K EQU 5", "START NOP", "LOOP NOP", ln, "ENDL NOP"]):
                     o = assemble(progl, wall_limit=20)
-                    if o.kind in ("ok", "diag"):
+                    if o.kind == "diag" or (o.kind == "ok" and _outputs(o.program) is None):
                         continue
                     if ctx.known(PID, {"part": "random"}, {"kind": o.kind, "exc": o.exc_name, "site": o.site, "line": ln}):
                         continue
@@ -227,8 +232,16 @@ def make_line(sh):
         lines = ["MSG EQU $1000", "K EQU 5", "B EQU 7", "START NOP", "LOOP NOP", sh.raw, "ENDL NOP"]
         out = assemble(lines, wall_limit=20)        # concrete text: a hang inside a library call counts as non-termination
         info = {"lines": lines, "outcome": out.describe()}
-        if out.kind in ("ok", "diag"):
+        if out.kind == "diag":
             return True, info
+        if out.kind == "ok":
+            from vlib.harness import outputs
+            bad = outputs(out.program)              # image, listing and symbol table of an accepted program
+            if bad is None:
+                return True, info
+            info["outcome"] = "accepted, then %s while generating the outputs" % type(bad[0]).__name__
+            env = {"kind": "internal", "exc": type(bad[0]).__name__, "site": bad[1], "line": sh.raw}
+            return ctx.known(PID, {"form": "line"}, env), info
         env = {"kind": out.kind, "exc": out.exc_name, "site": out.site, "line": sh.raw}
         return ctx.known(PID, {"form": "line"}, env), info
     return Ob("C13:line:%r" % (sh.raw,), body, timeout=40, tags={"form": "line", "raw": sh.raw}, text=repr(sh.raw))
